@@ -12,6 +12,7 @@ from __future__ import annotations
 from typing import Any, Dict, List
 
 from .. import families as F
+from ..core import Budget
 from ..drivers import Harness
 from ..e1 import bfs
 from . import follow
@@ -61,14 +62,24 @@ def relation(nodes: Dict[str, F.N], src: str, tgt: str) -> str:
 
 def explore_universal(tree, engines=ENGINES, collect=None) -> Dict[str, Any]:
     cfg, nodes, events = F.universal_config(tree)
+    return explore_generic(
+        cfg, nodes, events, label=F.tree_str(tree), replay=dict(kind="tree", tree=tree),
+        engines=engines, collect=collect,
+    )
+
+
+def explore_generic(
+    cfg, nodes, events, *, label, replay, engines=ENGINES, collect=None,
+    shape_prefix="", guard_impls=None,
+) -> Dict[str, Any]:
     byid = {n.id: n for n in nodes}
     res = dict(states=0, transitions=0, executions=0, distinct_count=0, violations=[], samples=[], caps=[])
     for engine in engines:
-        h = Harness(cfg, with_plugin=True, with_subscriber=True)
+        h = Harness(cfg, with_plugin=True, with_subscriber=True, extra_guards=guard_impls)
         viol: List[Dict[str, Any]] = []
 
         def flag(clause, obs, hist, ev, conf, engine=engine):
-            if ev is not None:
+            if ev is not None and ev in events:
                 e = events[ev]
                 tk = byid[e["tgt"]].kind if e["tgt"] else "-"
                 tp = byid[e["tgt"]].parent.kind if e["tgt"] and byid[e["tgt"]].parent else "-"
@@ -76,16 +87,18 @@ def explore_universal(tree, engines=ENGINES, collect=None) -> Dict[str, Any]:
                 shape = f"kind={e['kind']}|tgt={tk}|tgtparent={tp}|rel={rel}"
             else:
                 shape = "start"
-            sig = f"C01|{clause}|{shape}"
+            sig = f"C01|{clause}|{shape_prefix}{shape}"
+            rp = dict(replay)
+            rp.update(engine=engine, hist=hist + ([ev] if ev else []))
             viol.append(
                 dict(
                     signature=sig,
                     clause=clause,
                     what=f"{engine}: illegal configuration {list(conf)} ({clause}) at {obs} after "
-                    f"{hist + ([ev] if ev else [])} on tree {F.tree_str(tree)}"
-                    + (f"; event {ev}: {events[ev]}" if ev else ""),
-                    size=len(hist) + F.tree_size(tree) * 10,
-                    replay=dict(kind="tree", tree=tree, engine=engine, hist=hist + ([ev] if ev else [])),
+                    f"{hist + ([ev] if ev else [])} on {label}"
+                    + (f"; event {ev}: {events[ev]}" if ev in events else ""),
+                    size=len(hist) + len(nodes) * 10,
+                    replay=rp,
                 )
             )
 
@@ -106,7 +119,7 @@ def explore_universal(tree, engines=ENGINES, collect=None) -> Dict[str, Any]:
                     return False
                 q = d.quiescent_ok()
                 if q:
-                    raise AssertionError(f"not quiescent: {q}")
+                    raise AssertionError(f"not quiescent: {q} on {label} after {hist}")
             return True
 
         def scan(d, hist, ev, mark):
@@ -133,15 +146,20 @@ def explore_universal(tree, engines=ENGINES, collect=None) -> Dict[str, Any]:
             status = d.observe()[2]
             if status not in ("running", "active"):
                 return []
-            return [name for name, e in events.items() if e["src"] in conf]
+            return [
+                name for name, e in events.items()
+                if e["src"] in conf and e["kind"] in ("T", "R", "N")
+            ]
 
         # start-up observations
         d0 = h.driver(engine)
-        err = d0.start()
         try:
+            err = d0.start()
             if err is not None:
-                raise AssertionError(f"universal machine failed to start: {err!r}")
+                raise AssertionError(f"machine {label} failed to start: {err!r}")
             scan(d0, [], None, 0)
+        except Budget:
+            pass
         finally:
             d0.close()
 
@@ -152,11 +170,16 @@ def explore_universal(tree, engines=ENGINES, collect=None) -> Dict[str, Any]:
         res["distinct_count"] += cl.states
         if cl.capped:
             res["caps"].append("max_states")
+        if cl.nonterminating:
+            # a step that never returns is C13's subject; C01 judges what it can observe
+            res.setdefault("counters", {})["steps_over_action_budget_skipped"] = (
+                res.get("counters", {}).get("steps_over_action_budget_skipped", 0) + len(cl.nonterminating)
+            )
         res["violations"].extend(viol)
         if collect is not None:
             collect[engine] = cl
     res["samples"].append(
-        dict(tree=F.tree_str(tree), events=len(events), states_total=res["states"], transitions_total=res["transitions"])
+        dict(machine=label, events=len(events), states_total=res["states"], transitions_total=res["transitions"])
     )
     return res
 
@@ -168,30 +191,39 @@ def run_unit(unit) -> Dict[str, Any]:
     return follow.explore_c01(payload)
 
 
+def replay_generic(cfg, nodes, payload, guard_impls=None) -> List[Dict[str, Any]]:
+    byid = {n.id: n for n in nodes}
+    h = Harness(cfg, with_plugin=True, with_subscriber=True, extra_guards=guard_impls)
+    d = h.driver(payload["engine"])
+    d.start()
+    out = []
+    print(f"  after start: {list(d.observe()[0])}")
+    for i, ev in enumerate(payload["hist"]):
+        d.send(ev)
+        conf = d.observe()[0]
+        print(f"  after {ev}: {list(conf)}")
+        bad = F.legal_configuration(byid, conf)
+        if bad and not out:
+            out.append(dict(signature=f"C01|{bad}", what=f"illegal configuration {list(conf)} after {payload['hist'][:i+1]}"))
+    for entry in d.rec.log:
+        confs = []
+        if entry[0] == "TR":
+            confs = [entry[4], entry[5]]
+        elif entry[0] == "SUB":
+            confs = [entry[1]]
+        for c in confs:
+            bad = F.legal_configuration(byid, c)
+            if bad and not out:
+                out.append(dict(signature=f"C01|{bad}", what=f"illegal configuration {list(c)} inside {entry[0]} callback"))
+    d.close()
+    return out
+
+
 def replay(payload) -> List[Dict[str, Any]]:
     if payload["kind"] == "tree":
         tree = _tuplify(payload["tree"])
         cfg, nodes, events = F.universal_config(tree)
-        byid = {n.id: n for n in nodes}
-        h = Harness(cfg, with_plugin=True, with_subscriber=True)
-        d = h.driver(payload["engine"])
-        d.start()
-        out = []
-        for i, ev in enumerate(payload["hist"]):
-            d.send(ev)
-            conf = d.observe()[0]
-            print(f"  after {ev}: {list(conf)}")
-            bad = F.legal_configuration(byid, conf)
-            if bad:
-                out.append(dict(signature=f"C01|{bad}", what=f"illegal configuration {list(conf)} after {payload['hist'][:i+1]}"))
-                break
-        for entry in d.rec.log:
-            if entry[0] in ("TR",):
-                bad = F.legal_configuration(byid, entry[5])
-                if bad and not out:
-                    out.append(dict(signature=f"C01|{bad}", what=f"illegal configuration {list(entry[5])} inside on_transition"))
-        d.close()
-        return out
+        return replay_generic(cfg, nodes, payload)
     return follow.replay_c01(payload)
 
 
